@@ -136,6 +136,8 @@ def gen_response(rng):
 	r.version = rng.choice([(1, 1), (1, 1), (1, 0)])
 	r.status = rng.choice(list(REASONS))
 	r.reason = REASONS[r.status]
+	if rng.random() < 0.2:
+		r.reason = rng.choice([b'', b'Not  Found', b'a\tb', b'Two Words', b'x'])      # an empty phrase, inner blank runs: the phrase is delivered as sent
 	has_body = r.status not in (204, 304) and rng.random() < 0.6
 	fields = []
 	for _ in range(rng.randrange(0, 5)):
